@@ -555,6 +555,12 @@ def analyze(plan, r):
                 if isinstance(c, tuple) and c[0] in BROKEN + ("ShutdownExecutorError",) and r.kinds[tid] != "sysexit" \
                         and not any(a[0] in ("break", "shutdown_cur") or (a[0] == "get" and a[4]) for th in plan["threads"] for a in th):
                     add(["C09"], "task-lost", f"factory-task-failed got[{c[0]}] ctx[{ctx}]", f"task {tid}")
+    # 9c. statements proved on the control model (coq/Model/Pool.v), watched on the real objects after every step
+    for name, where in getattr(r, "inv_violations", {}).items():
+        if name == "manager-gone-with-pending" and (crashes or r.status != "quiescent"):
+            continue        # a crashed manager thread is reported as such
+        add(["C01", "C02"] if name == "manager-gone-with-pending" else ["C02", "C01"], "model-invariant-violated",
+            f"proved-invariant-violated[{name}] ctx[{ctx}]", f"at step {where[0]}: {where[1]}")
     # 10. parallelism (C08)
     mx = getattr(r, "max_registered", None)
     if mx is not None and mx[0] > mx[1]:
